@@ -47,6 +47,10 @@ ASSUMPTIONS = [
 MAXIT = 60
 TOLX = 1e-7
 CONV_TOL = 1e-3
+CONV_TOL_DEFAULT_TOLX = 0.05  # with the routine's default tolx (1e-4); largest distance measured on the level: 0.013
+DIST = []
+GMAX = []
+FEAS_TOL_DEFAULT_TOLX = 5e-3  # largest final constraint value measured with the default tolx on the wide-range level: 3.3e-4
 FEAS_TOL = 1e-6
 KKT_FACTOR = 20.0
 EPSIMIN = 1e-10      # handed to minimize_mma explicitly: the accuracy the user requests for the sub-problem
@@ -101,7 +105,8 @@ def bounds(tier, seed):
 
 def input_id(case):
     return '/'.join(str(case.get(k, '-')) for k in ('n', 'obj', 'cons', 'split', 'bounds', 'move', 'start', 'version', 'asy',
-                                                    'table', 'sigkind', 'opts'))
+                                                    'table', 'sigkind', 'opts')) + \
+        ''.join(f'/{k}={case[k]}' for k in ('tolx', 'callback') if case.get(k))
 
 
 _UNBAL = {}
@@ -162,6 +167,30 @@ def generate(tier, seed):
                             yield dict(base, sigkind=sk)
                     for op in sorted(set(OPTS) - set(OPTS_SCALED)):
                         yield dict(base, opts=op)
+    # bound ranges differing by 1e4 between variables, stopping left to the routine's default tolx: the run must still end
+    # near the optimum (the stopping rule is in units of each variable's range)
+    yield {'__level__': 'wide-range bounds with the default stopping tolerance'}
+    for tb, n in itertools.product(range(R.NTABLES), (2, 3, 5) if tier == 'quick' else (2, 3, 5, 8)):
+        for obj, cons in itertools.product(R.OBJECTIVES, R.CONSTRAINTS):
+            if _expected_unbalanced(n, obj, cons, tb):
+                continue
+            for start in (('lower', 'mixed', 'upper') if tier == 'quick' else R.STARTS):
+                for ver in R.VERSIONS:
+                    for mk in (('scalar',) if tier == 'quick' else ('scalar', 'pervar')):
+                        yield {'n': n, 'split': 'one_array', 'obj': obj, 'cons': cons, 'bounds': 'wide', 'move': mk,
+                               'start': start, 'version': ver, 'asy': 'default', 'table': tb, 'tolx': 'default'}
+    # a callback that prescribes one variable by assigning a new state: the sub-problem is built at the design the
+    # responses were evaluated at
+    yield {'__level__': 'callback prescribing a variable'}
+    for n in ((2, 3) if tier == 'quick' else (2, 3, 5)):
+        for obj, cons in itertools.product(R.OBJECTIVES, R.CONSTRAINTS):
+            for split in ('one_array', 'array_scalar', 'scalars'):
+                if R.split_sizes(n, split) is None:
+                    continue
+                for ver in R.VERSIONS:
+                    yield {'n': n, 'split': split, 'obj': obj, 'cons': cons, 'bounds': 'scalar', 'move': 'persignal',
+                           'start': 'mixed', 'version': ver, 'asy': 'default', 'table': table, 'callback': 'passive',
+                           'maxit': 8}
     yield {'__level__': 'min-max with scaled constraints (all value tables)'}
     for tb in range(R.NTABLES):
         for n in ((2, 3, 5) if tier == 'quick' else (2, 3, 5, 6, 8)):
@@ -296,7 +325,19 @@ def execute(case):
             raise _Truncate('newton cap' if capped else 'kkt')
         return ret
 
+    cbs_pre = []
+
     def callback():
+        cbs_pre.append([np.array(s.state) for s in sigs])
+        if case.get('callback') == 'passive':
+            # the user's callback prescribes the first variable (a passive element kept solid) by ASSIGNING a new state
+            v = np.array(sigs[0].state, dtype=float)
+            pv = float(lo[0] + 0.8 * (hi[0] - lo[0]))
+            if v.ndim:
+                v[0] = pv
+                sigs[0].state = v
+            else:
+                sigs[0].state = pv
         cbs.append([np.array(s.state) for s in sigs])
 
     spec = lambda v: v.copy() if isinstance(v, np.ndarray) else v
@@ -305,7 +346,9 @@ def execute(case):
         mmamod.residual = counting_residual   # only counts work (cost guard), never alters a value
     try:
         with contextlib.redirect_stdout(buf):
-            pym.minimize_mma(net, sigs, outs, verbosity=0, maxit=MAXIT, tolx=TOLX, move=spec(move_spec),
+            tolkw = {} if case.get('tolx') == 'default' else {'tolx': TOLX}
+            pym.minimize_mma(net, sigs, outs, verbosity=0, maxit=int(case.get('maxit', MAXIT)), move=spec(move_spec),
+                             **tolkw,
                              xmin=spec(xmin_spec), xmax=spec(xmax_spec), mmaversion=case['version'],
                              asyinit=asyinit, asyincr=asyincr, asydecr=asydecr, albefa=albefa, epsimin=EPSIMIN,
                              fn_callback=callback, **extra)
@@ -323,6 +366,8 @@ def execute(case):
         base_sig['variable'] = case['sigkind']
     if case.get('opts'):
         base_sig['options'] = case['opts']
+    if case.get('callback'):
+        base_sig['callback'] = case['callback']
 
     def chk(cond, check, sig, **detail):
         nonlocal nchecks
@@ -350,7 +395,7 @@ def execute(case):
         # --- write-back: every signal holds exactly its own segment of the expected vector
         expect = x0 if k == 0 else subs[k - 1][1][0]
         for i, sz in enumerate(sizes):
-            got = np.atleast_1d(cbs[k][i]).ravel()
+            got = np.atleast_1d(cbs_pre[k][i]).ravel()     # as written by the optimiser (before the user's callback)
             want = expect[cum[i]:cum[i + 1]]
             chk(got.shape == want.shape and np.array_equal(got, want), 'writeback',
                 {'signal': 'scalar' if sz == 0 else 'array'},
@@ -430,11 +475,12 @@ def execute(case):
     ref = _reference(case, lo, hi)
     inconclusive = 0
     dist0 = None
-    if opts:
+    if opts or case.get('callback'):
         conv_tag = 'options'
-        chk(all(np.array_equal(sb[0]['a'], extra['a']) and sb[0]['a0'] == extra['a0'] and
-                np.array_equal(sb[0]['c'], extra.get('c', sb[0]['c'])) for sb in subs), 'options_handed_to_subproblem',
-            {'option': opts})
+        if opts:
+            chk(all(np.array_equal(sb[0]['a'], extra['a']) and sb[0]['a0'] == extra['a0'] and
+                    np.array_equal(sb[0]['c'], extra.get('c', sb[0]['c'])) for sb in subs),
+                'options_handed_to_subproblem', {'option': opts})
         if ref is not None:
             dist0 = float(np.max(np.abs(x0 - ref['x']) / dx))
     elif truncated[0]:
@@ -455,9 +501,15 @@ def execute(case):
         gmax = float(np.max(prob.values(xf)[1:])) if ok_shape else float('inf')
         if ref['balanced']:
             sigc = dict(base_sig, asy=case['asy'])
-            chk(dist <= CONV_TOL, 'convergence_distance', sigc, distance=dist, iterations=nit, final=xf,
+            DIST.append(dist)
+            ctol = CONV_TOL_DEFAULT_TOLX if case.get('tolx') == 'default' else CONV_TOL
+            if case.get('tolx') == 'default':
+                sigc['tolx'] = 'default'
+            chk(dist <= ctol, 'convergence_distance', sigc, distance=dist, iterations=nit, final=xf,
                 optimum=ref['x'])
-            chk(gmax <= FEAS_TOL, 'convergence_feasibility', sigc, max_constraint=gmax, iterations=nit)
+            GMAX.append(gmax)
+            ftol = FEAS_TOL_DEFAULT_TOLX if case.get('tolx') == 'default' else FEAS_TOL
+            chk(gmax <= ftol, 'convergence_feasibility', sigc, max_constraint=gmax, iterations=nit)
             conv_tag = 'conv' if (dist <= CONV_TOL and gmax <= FEAS_TOL) else 'noconv'
         else:
             conv_tag = 'unbal-' + ('near' if dist <= CONV_TOL else 'cycle' if dist <= 2e-2 else 'far')
